@@ -678,8 +678,8 @@ def describe(a):
 def check_matching_pairs(rep, repo, f):
     if f is None:
         return
-    from ..lints import index_bound_violations
-    for line, txt in index_bound_violations(f):
+    from ..lints import index_bound_violations, scan_entry_violations
+    for line, txt in index_bound_violations(f) + scan_entry_violations(f):
         rep.fail('C07.R1', f.where, 'the search over the student\'s row examines every entry and stops at the end of the row (a project that is not on the list yields None)', got=txt,
                  want='index < len(row)', construct='search reads one past the end of the row', loc='%s:%d' % (f.relpath, line))
     it = Interp(repo)
@@ -706,7 +706,36 @@ def check_matching_pairs(rep, repo, f):
             row = I(A(lp.MODEL, 'pairs'), b)
             # search: some candidate of row b with candidate.projectID == matching[b]; None otherwise
             has_none = contains(el, lambda x: x == NONE)
-            cands = [x for x in walk(el) if x[0] == 'cmp' and x[1] == 'Eq' and ((x[2][0] == 'attr' and x[2][2] == 'projectID' and x[3] == mi) or (x[3][0] == 'attr' and x[3][2] == 'projectID' and x[2] == mi))]
+            def is_id_test(x, ops):
+                return x[0] == 'cmp' and x[1] in ops and ((x[2][0] == 'attr' and x[2][2] == 'projectID' and x[3] == mi) or (x[3][0] == 'attr' and x[3][2] == 'projectID' and x[2] == mi))
+            pol = []
+            def polar(x, pos):
+                if not isinstance(x, tuple):
+                    return
+                if x and isinstance(x[0], str):
+                    if is_id_test(x, ('Eq',)):
+                        pol.append(pos)
+                        return
+                    if is_id_test(x, ('NotEq',)):
+                        pol.append(not pos)
+                        return
+                    if x[0] == 'not':
+                        polar(x[1], not pos)
+                        return
+                    for y in x[1:]:
+                        polar(y, pos)
+                else:
+                    for y in x:
+                        polar(y, pos)
+            polar(el, True)
+            cands = [p_ for p_ in pol if p_] if pol and all(pol) else []
+            if pol and not all(pol):
+                # a negated id test selects the wrong entries when it is the guard of the assignment itself; anywhere else
+                # (a skip-while-different scan, say) it may be right: not judged
+                direct = el[0] == 'accum' and any(en[0] == 'assign' and any(g_[0] == 'not' and is_id_test(g_[1], ('Eq',)) or is_id_test(g_, ('NotEq',)) for _, g_ in en[3]) for en in el[2])
+                if not direct:
+                    rep.inconclusive('C07.R1', f.where, 'the search selects the entry by a positive test projectID == m', got=show(el)[:160])
+                    return
             from_row = contains(el, lambda x: x == row)
             other_rows = contains(el, lambda x: x[0] == 'idx' and x[1] == A(lp.MODEL, 'pairs') and x[2] != b)
             if not guard_ok:
